@@ -193,16 +193,106 @@ func hasQuantRec(t *Term) bool {
 
 func (o *Oblig) query() *Query {
 	q := &Query{Cover: o.Cover}
+	var cands []*Term
 	for _, a := range o.vc.log[:o.NLog] {
 		if o.Cover && hasQuant(a) {
 			continue // covers are satisfiability checks: quantified facts are dropped (solvers answer unknown on them)
 		}
-		q.Assumes = append(q.Assumes, a)
+		cands = append(cands, a)
 	}
-	q.Assumes = append(q.Assumes, o.Extra...)
+	cands = append(cands, o.Extra...)
+	if o.Cover {
+		// a cover must be satisfiable together with ALL assumptions (that is its point)
+		q.Assumes = append(cands, o.PC)
+		return q
+	}
+	// relevance slicing (sound: dropping assumptions only weakens the hypothesis): keep the assumptions that share a
+	// free symbol, transitively, with the goal and the path condition (worklist over a symbol index)
+	symsOf := make([][]string, len(cands))
+	index := map[string][]int{}
+	used := make([]bool, len(cands))
+	for i, a := range cands {
+		ss := termSyms(a)
+		symsOf[i] = ss
+		if len(ss) == 0 {
+			used[i] = true
+		}
+		for _, s := range ss {
+			index[s] = append(index[s], i)
+		}
+	}
+	seen := map[string]bool{}
+	var work []string
+	push := func(t *Term) {
+		for _, s := range termSyms(t) {
+			if !seen[s] {
+				seen[s] = true
+				work = append(work, s)
+			}
+		}
+	}
+	push(o.PC)
+	if o.Goal != nil {
+		push(o.Goal)
+	}
+	for len(work) > 0 {
+		s := work[len(work)-1]
+		work = work[:len(work)-1]
+		for _, i := range index[s] {
+			if used[i] {
+				continue
+			}
+			used[i] = true
+			for _, s2 := range symsOf[i] {
+				if !seen[s2] {
+					seen[s2] = true
+					work = append(work, s2)
+				}
+			}
+		}
+	}
+	for i, a := range cands {
+		if used[i] {
+			q.Assumes = append(q.Assumes, a)
+		}
+	}
 	q.Assumes = append(q.Assumes, o.PC)
 	q.Goal = o.Goal
 	return q
+}
+
+var symsMemo = map[int][]string{}
+var symsMu sync.Mutex
+
+// termSyms: free variable names of a term (uninterpreted function symbols are not linking symbols), memoised.
+func termSyms(t *Term) []string {
+	symsMu.Lock()
+	defer symsMu.Unlock()
+	return termSymsRec(t)
+}
+
+func termSymsRec(t *Term) []string {
+	if r, ok := symsMemo[t.id]; ok {
+		return r
+	}
+	var out []string
+	switch t.Op {
+	case "var":
+		out = []string{t.Name}
+	case "const", "bool":
+	default:
+		seen := map[string]bool{}
+		for _, a := range t.Args {
+			for _, s := range termSymsRec(a) {
+				if !seen[s] {
+					seen[s] = true
+					out = append(out, s)
+				}
+			}
+		}
+	}
+	symsMemo[t.id] = out
+	return out
 }
 
 // ---- heaps
